@@ -421,6 +421,7 @@ type c18SlashOutcome struct {
 	baseSlash *big.Int            // base-coin value taken from base-coin stakes and funds
 	coinSlash map[uint64]*big.Int // custom coins taken, per coin
 	items     map[uint64]int      // number of slashed custom-coin items, per coin
+	released  map[string]*big.Int // "address/coin" -> what the funds maturing in this block pay out (slashed first when they come from a punished validator)
 }
 
 // c18ExpectSlash applies the punishment to every candidate of `who`: once (what the property asks
@@ -435,7 +436,7 @@ func c18ExpectSlash(pre *explore.State, h uint64, who map[uint64]*c18Cand, perEv
 		}
 		return 1
 	}
-	o := c18SlashOutcome{funds: c18Multiset{}, baseSlash: new(big.Int), coinSlash: map[uint64]*big.Int{}, items: map[uint64]int{}}
+	o := c18SlashOutcome{funds: c18Multiset{}, baseSlash: new(big.Int), coinSlash: map[uint64]*big.Int{}, items: map[uint64]int{}, released: map[string]*big.Int{}}
 	take := func(coin uint64, v *big.Int) *big.Int {
 		nv := c18Cut95(v)
 		s := new(big.Int).Sub(v, nv)
@@ -453,7 +454,22 @@ func c18ExpectSlash(pre *explore.State, h uint64, who map[uint64]*c18Cand, perEv
 	for i := range pre.Export.FrozenFunds {
 		f := &pre.Export.FrozenFunds[i]
 		if f.Height == h {
-			continue // released in this very block
+			// released in this very block: the punishment of BeginBlock comes first, so a fund of a
+			// punished validator that matures now is paid out at 95 %. (Moves go to a stake: C16.)
+			v := obs.Num(f.Value)
+			if c := who[f.CandidateID]; c != nil && f.CandidateKey != nil {
+				for r := 0; r < roundsOf(c); r++ {
+					v = take(f.Coin, v)
+				}
+			}
+			if f.MoveToCandidateID == 0 {
+				k := fmt.Sprintf("%s/%d", f.Address.String(), f.Coin)
+				if o.released[k] == nil {
+					o.released[k] = new(big.Int)
+				}
+				o.released[k].Add(o.released[k], v)
+			}
+			continue
 		}
 		v := obs.Num(f.Value)
 		if c := who[f.CandidateID]; c != nil && f.CandidateKey != nil && f.Height >= h && f.Height <= h+c18UnbondPeriod {
@@ -766,6 +782,29 @@ func (Punishment) Check(t *explore.Transition) ([]V, bool) {
 			return out, true // the counters below repeat the same defect
 		}
 		add(sig, "unbonding fund %s: expected values %v, found %v (each stake and each fund from a punished validator loses value-floor(value*95/100) once; the rest of a stake is frozen until %d)", k, want.funds[k], got[k], h+c18UnbondPeriod)
+	}
+	// funds that mature in this block: the owner is credited what is left after the punishment
+	// (judged for owners that send nothing in this block and in blocks without a payout)
+	if !m.payout {
+		senders := map[string]bool{}
+		for _, x := range last.Txs {
+			senders[x.Sender.String()] = true
+		}
+		for k, wantCredit := range want.released {
+			parts := strings.SplitN(k, "/", 2)
+			if senders[parts[0]] {
+				continue
+			}
+			key := "acct/" + parts[0] + "/bal/" + parts[1]
+			d := new(big.Int).Sub(obs.Num(post.Flat[key]), obs.Num(pre.Flat[key]))
+			if d.Cmp(wantCredit) != 0 {
+				cls := "not-punished"
+				if len(who) > 0 {
+					cls = "evidence-in-the-block-of-maturity"
+				}
+				add("matured-fund-payout|"+cls, "funds of %s in coin %s mature in this block: the balance changed by %s, expected %s (a fund from a validator punished in this block is cut to 95 %% first)", parts[0], parts[1], d, wantCredit)
+			}
+		}
 	}
 	// coin volumes / reserves and the total-slashed counter
 	custom := new(big.Int)
